@@ -192,8 +192,17 @@ def unionLoop (sets : Bool) (hasDefault : Bool) : List Field → Option Rule
 def checkUnions (cfg : Cfg) (f : File) : Option Rule :=
   f.unions.findSome? fun u => unionLoop cfg.unionSetsHasDefault false u.fields
 
+/-- "success" -/
+def successName : Name := [115, 117, 99, 99, 101, 115, 115]
+
+/-- the seeds of checkFunctionFields for a throws list: with a return value the synthesized
+`<func>_result` struct already holds field 0 named `success` -/
+def throwsSeedIds (f : Func) : List Int := if f.void then [] else [0]
+def throwsSeedNames (f : Func) : List Name := if f.void then [] else [successName]
+
 /-- the per-service loop of CheckFunctions: name, oneway rules, then `checkFunctionFields` on the
-arguments and on the throws list (the same id-then-name loop as for struct-likes) -/
+arguments (`withSuccess = false`) and on the throws list (`withSuccess = !f.Void`): the same
+id-then-name loop as for struct-likes -/
 def funcLoop (defined : List Name) : List Func → Option Rule
   | [] => none
   | f :: r =>
@@ -204,7 +213,7 @@ def funcLoop (defined : List Name) : List Func → Option Rule
       match fieldLoop [] [] f.args with
       | some e => some e
       | none =>
-        match fieldLoop [] [] f.throws with
+        match fieldLoop (throwsSeedIds f) (throwsSeedNames f) f.throws with
         | some e => some e
         | none => funcLoop (f.name :: defined) r
 
